@@ -46,6 +46,39 @@ def spec_update(d, u):
     return d
 
 
+DUPKEY = b"dup-hist"
+
+
+def inject_duplicates(path, is_md, rng, fixed=None):
+    """rewrite the footer by hand with 2-3 entries under one key appended (what a foreign writer may produce);
+    returns {"vals": [hex], "pos": ...} so that a replay can repeat it (pass it back as `fixed`)"""
+    from fastparquet.cencoding import from_buffer
+    from fastparquet import parquet_thrift
+    b = open(path, "rb").read()
+    loc = 4 if is_md else len(b) - 8 - int.from_bytes(b[-8:-4], "little")
+    fmd = from_buffer(b[loc:], "FileMetaData")
+    kvs = list(fmd.key_value_metadata or [])
+    if fixed:
+        vals, pos = [bytes.fromhex(v) for v in fixed["vals"]], fixed["pos"]
+    else:
+        vals = [b"step-1", b"", b"step-3 " + bytes(rng.randrange(97, 123) for _ in range(rng.choice([0, 5, 30])))][:rng.choice([2, 3])]
+        pos = rng.choice(["end", "spread"])
+    new = [parquet_thrift.KeyValue(key=DUPKEY, value=v) for v in vals]
+    if pos == "end" or not kvs:
+        kvs = kvs + new
+    else:
+        kvs = [new[0]] + kvs + new[1:]
+    fmd.key_value_metadata = kvs
+    foot = bytes(fmd.to_bytes())
+    with open(path, "wb") as f:
+        f.write(b[:loc] + foot + struct.pack("<I", len(foot)) + b"PAR1")
+    return {"vals": [v.hex() for v in vals], "pos": pos}
+
+
+def _trim_list(l):
+    return [(k[:20], v[:20]) for k, v in l][:12]
+
+
 def kv_of(fmd):
     return [(eb(x.key), eb(x.value)) for x in (fmd.key_value_metadata or [])]
 
@@ -149,13 +182,23 @@ def run(ctx):
         want0 = {eb(k): eb(v) for k, v in d0.items()}
         if {k: v for k, v in cur.items() if k != b"pandas"} != want0:
             ctx.fail({"component": "write", "op": "custom_metadata"}, case, "custom_metadata not returned verbatim: %r vs %r" % (cur, want0))
+        # a footer as another writer may leave it: the SAME key several times in the list<KeyValue> (legal in the IDL);
+        # the updates below never name that key, so every one of its entries must survive, in order
+        dup = rng.random() < 0.3
+        if dup:
+            case["replay_data"]["dup"] = inject_duplicates(path, kind == "_metadata", rng)
+            pf = ParquetFile(path)
+            cur = {eb(k): eb(v) for k, v in pf.key_value_metadata.items()}
+            case["duplicate_entries"] = [[k.hex(), v.hex()] for k, v in kv_of(pf.fmd) if k == DUPKEY]
+        ctx.count("footer_has_duplicate_key", dup)
         schema0, rgs0 = pf.fmd.schema, pf.fmd.row_groups
         df0 = ParquetFile(root if kind == "_metadata" else path).to_pandas()
         nupd = rng.choice([1, 2, 3, 5])
         trivial_hist = True
         for step in range(nupd):
             before = open(path, "rb").read()
-            keys_now = [k for k in cur if k != b"pandas"]
+            keys_now = [k for k in cur if k != b"pandas" and k != DUPKEY]
+            raw_before = kv_of(ParquetFile(path).fmd)
             u = {}
             # choose the update so that footer deltas of every small size occur
             mode = rng.choice(["shrink", "grow", "mixed", "remove", "same", "empty"] if step else ["grow", "mixed", "shrink"])
@@ -190,6 +233,45 @@ def run(ctx):
             if u:
                 trivial_hist = False
             is_md = (kind == "_metadata")
+            if rng.random() < 0.12:
+                # an update the library must refuse (value / key of a type that cannot be stored): it has to raise and
+                # leave a valid file with the previous content (the property holds for ANY sequence of updates)
+                bad = dict(u)
+                which = rng.choice(["int-value", "list-value", "int-key", "float-value"])
+                if which == "int-key":
+                    bad[7] = "x"
+                else:
+                    bad[rng.choice(["rev", "a", "zz-new"])] = {"int-value": 7, "list-value": ["a"], "float-value": 1.5}[which]
+                ctx.count("rejected_update", which)
+                case["updates"].append([["<rejected: %s>" % which, None]])
+                case["replay_data"]["updates"].append({"rejected": which, "u": enc_dict(u)})
+                raised = None
+                try:
+                    update_file_custom_metadata(path, bad)
+                except Exception as e:       # noqa
+                    raised = type(e).__name__
+                after = open(path, "rb").read()
+                problems = []
+                if raised is None:
+                    problems.append("an update with a %s was accepted" % which)
+                try:
+                    pf2 = ParquetFile(path)
+                    got = {eb(k): eb(v) for k, v in pf2.key_value_metadata.items()}
+                    if got != cur:
+                        problems.append("key-values after a REFUSED update %r, expected the previous %r" % (_trim(got), _trim(cur)))
+                    if not (pf2.fmd.schema == schema0) or not (pf2.fmd.row_groups == rgs0):
+                        problems.append("schema / row groups changed by a refused update")
+                    if not ParquetFile(root if is_md else path).to_pandas().equals(df0):
+                        problems.append("data read back differs after a refused update")
+                except Exception as e:      # noqa
+                    problems.append("file unreadable after a refused update (%d -> %d bytes): %s: %s" % (len(before), len(after), type(e).__name__, e))
+                if after[-4:] != b"PAR1":
+                    problems.append("file does not end with the magic after a refused update")
+                if problems:
+                    ctx.fail({"component": "update_file_custom_metadata", "op": "refused-update", "file_kind": kind, "what": which},
+                             {**case, "failing_step": step}, "; ".join(problems))
+                    break
+                continue
             # model inputs: where the footer is, and what the new footer bytes are (library's own serialiser)
             if is_md:
                 loc = 4
@@ -240,6 +322,11 @@ def run(ctx):
                     got = {eb(k): eb(v) for k, v in pf2.key_value_metadata.items()}
                     if got != want:
                         problems.append("key-values after update %r, expected %r" % (_trim(got), _trim(want)))
+                    named = set(eb(k) for k in u)
+                    raw_after = kv_of(pf2.fmd)
+                    if [e for e in raw_before if e[0] not in named] != [e for e in raw_after if e[0] not in named]:
+                        problems.append("entries not named by the update changed: %r -> %r" % (
+                            _trim_list([e for e in raw_before if e[0] not in named]), _trim_list([e for e in raw_after if e[0] not in named])))
                     if not (pf2.fmd.schema == schema0):
                         problems.append("schema changed")
                     if not (pf2.fmd.row_groups == rgs0):
@@ -321,18 +408,39 @@ def replay(rep):
         else:
             path = root = os.path.join(tmp, "f.parquet")
             write(path, df, custom_metadata=dict(d0) or None, row_group_offsets=rgo)
+        if rd.get("dup"):
+            inject_duplicates(path, rd["kind"] == "_metadata", None, fixed=rd["dup"])
         cur = {eb(k): eb(v) for k, v in ParquetFile(path).key_value_metadata.items()}
         bad = 0
         for i, ul in enumerate(rd["updates"]):
-            u = dec_dict(ul)
             before = open(path, "rb").read()
-            update_file_custom_metadata(path, dict(u))
+            raw_before = kv_of(ParquetFile(path).fmd)
+            if isinstance(ul, dict) and "rejected" in ul:
+                u = dec_dict(ul["u"])
+                badu = dict(u)
+                if ul["rejected"] == "int-key":
+                    badu[7] = "x"
+                else:
+                    badu["rev"] = {"int-value": 7, "list-value": ["a"], "float-value": 1.5}[ul["rejected"]]
+                try:
+                    update_file_custom_metadata(path, badu)
+                    print("step %d: the refused update (%s) was ACCEPTED" % (i, ul["rejected"]))
+                    return 1
+                except Exception as e:      # noqa
+                    print("step %d: refused update raised %s" % (i, type(e).__name__))
+                want, named = cur, set()
+            else:
+                u = dec_dict(ul)
+                update_file_custom_metadata(path, dict(u))
+                want, named = spec_update(cur, u), set(eb(k) for k in u)
             after = open(path, "rb").read()
-            want = spec_update(cur, u)
             try:
-                got = {eb(k): eb(v) for k, v in ParquetFile(path).key_value_metadata.items()}
-                ok = got == want and ParquetFile(root).to_pandas().equals(df) and after[-4:] == b"PAR1"
-                msg = "kv equal: %s" % (got == want)
+                pf2 = ParquetFile(path)
+                got = {eb(k): eb(v) for k, v in pf2.key_value_metadata.items()}
+                raw_after = kv_of(pf2.fmd)
+                keep = [e for e in raw_before if e[0] not in named] == [e for e in raw_after if e[0] not in named]
+                ok = got == want and keep and ParquetFile(root).to_pandas().equals(df) and after[-4:] == b"PAR1"
+                msg = "kv equal: %s, untouched entries kept: %s" % (got == want, keep)
             except Exception as e:      # noqa
                 ok, msg = False, "unreadable: %s: %s" % (type(e).__name__, e)
             print("step %d: file %d -> %d bytes, tail %s : %s" % (i, len(before), len(after), after[-8:].hex(), "ok" if ok else "PROPERTY FAILS (" + msg + ")"))
